@@ -204,6 +204,10 @@ type caseStats struct {
 	setKinds                                                                     map[string]bool
 	splitAcrossRuns, splitAcrossFormats, braceAdjacent                           int
 	loopSplit                                                                    bool
+	lookalikes                                                                   int
+	loopFormats, loopRuns                                                        int             // max over loop-row paragraphs: distinct formats / text runs
+	loopNontext                                                                  map[string]bool // non-text run kinds standing in loop-row paragraphs
+	loopMarkerSplit                                                              bool            // a loop marker ({{#each x}} / {{/each}}) cut across runs
 	valueClasses                                                                 map[string]bool
 }
 
@@ -252,6 +256,83 @@ func paraSplit(p *Para, cs *caseStats) {
 	for _, s := range p.Sets {
 		cs.setKinds[s.K] = true
 	}
+	cs.lookalikes += countLookalikes(text)
+}
+
+// countLookalikes counts {{...}} groups that are no placeholder/directive by the documented syntax but would be one
+// with blanks dropped and letters lower-cased.
+func countLookalikes(text []rune) int {
+	n := 0
+	for i := 0; i+1 < len(text); i++ {
+		if !hasAt(text, i, "{{") {
+			continue
+		}
+		e := -1
+		for k := i + 2; k+1 < len(text) && k < i+40; k++ {
+			if hasAt(text, k, "}}") {
+				e = k + 2
+				break
+			}
+			if hasAt(text, k, "{{") {
+				break
+			}
+		}
+		if e < 0 {
+			continue
+		}
+		grp := text[i:e]
+		if len(scanVars(grp))+len(scanDirective(grp, "each"))+len(scanDirective(grp, "image"))+len(scanLiteral(grp, "{{/each}}")) > 0 {
+			continue
+		}
+		var norm []rune
+		for _, r := range strings.ToLower(string(grp)) {
+			if !isSpace(r) {
+				norm = append(norm, r)
+			}
+		}
+		ns := string(norm)
+		for _, kw := range []string{"{{#each", "{{#image"} {
+			if strings.HasPrefix(ns, kw) && len(ns) > len(kw)+2 {
+				ns = kw + " " + ns[len(kw):]
+			}
+		}
+		g := []rune(ns)
+		if len(scanVars(g))+len(scanDirective(g, "each"))+len(scanDirective(g, "image"))+len(scanLiteral(g, "{{/each}}")) > 0 {
+			n++
+		}
+	}
+	return n
+}
+
+// loopParaStats records how rich a loop-row paragraph is.
+func loopParaStats(p *Para, cs *caseStats) {
+	fm := map[string]bool{}
+	nt := 0
+	var text []rune
+	var owner []int
+	for i, r := range p.Runs {
+		if r.K != "t" {
+			cs.loopNontext[r.K] = true
+			continue
+		}
+		nt++
+		fm[fmt.Sprintf("%+v", r.F)] = true
+		for _, ch := range r.T {
+			text = append(text, ch)
+			owner = append(owner, i)
+		}
+	}
+	if len(fm) > cs.loopFormats {
+		cs.loopFormats = len(fm)
+	}
+	if nt > cs.loopRuns {
+		cs.loopRuns = nt
+	}
+	for _, sp := range append(scanDirective(text, "each"), scanLiteral(text, "{{/each}}")...) {
+		if owner[sp.s] != owner[sp.e-1] {
+			cs.loopMarkerSplit = true
+		}
+	}
 }
 
 func tableStats(t *Table, cs *caseStats, depth int) {
@@ -276,6 +357,9 @@ func tableStats(t *Table, cs *caseStats, depth int) {
 				if r == t.LoopRow && cs.splitAcrossRuns > before {
 					cs.loopSplit = true
 				}
+				if r == t.LoopRow {
+					loopParaStats(p, cs)
+				}
 				if strings.Contains(paraText(p), "{{#image") {
 					cs.cellImgParas++
 				}
@@ -298,7 +382,7 @@ func paraText(p *Para) string {
 }
 
 func describe(res *kit.Result, c *Case, j *judge) {
-	cs := &caseStats{nontext: map[string]int{}, setKinds: map[string]bool{}, valueClasses: map[string]bool{}}
+	cs := &caseStats{nontext: map[string]int{}, setKinds: map[string]bool{}, valueClasses: map[string]bool{}, loopNontext: map[string]bool{}}
 	var sk strings.Builder
 	for _, b := range c.Blocks {
 		switch {
@@ -367,6 +451,13 @@ func describe(res *kit.Result, c *Case, j *judge) {
 	lab(cs.splitAcrossFormats > 0, "ph:split-across-formats")
 	lab(cs.loopSplit, "ph:split-in-loop-row")
 	lab(cs.braceAdjacent > 0, "ph:next-to-literal-brace")
+	lab(cs.lookalikes > 0, "spelling:look-alike-literal")
+	lab(cs.loopFormats >= 2, "looprow:2+formats-in-a-paragraph")
+	lab(cs.loopRuns >= 3, "looprow:3+runs-in-a-paragraph")
+	lab(cs.loopMarkerSplit, "looprow:marker-split-across-runs")
+	for k := range cs.loopNontext {
+		res.Label("looprow:nontext-" + k)
+	}
 	hasList := false
 	for _, b := range c.Blocks {
 		if b.P != nil && b.P.List {
@@ -411,6 +502,14 @@ func describe(res *kit.Result, c *Case, j *judge) {
 		lab(j.nImgWith > 0, "image:with-data")
 		lab(j.nImgWithout > 0, "image:without-data")
 		lab(j.ambiguous > 0, "oracle:ambiguous-paragraph-skipped")
+		lab(j.nLenientLoops > 0, "spelling:loop-marker-undocumented-blanks")
+		lab(j.nLenientLoopsItems > 0, "spelling:loop-marker-undocumented-blanks+items")
+		lab(j.nLenientImgs > 0, "spelling:image-undocumented-blanks")
+		lab(j.nConds > 0, "doc:conditional-block")
+		lab(j.nCondHit > 0, "reading:conditional-processed")
+		lab(j.nConds > j.nCondHit, "reading:conditional-left-alone")
+		lab(j.nLenientProcessed > 0, "reading:undocumented-spelling-processed")
+		lab(j.nLenientUntouched > 0, "reading:undocumented-spelling-untouched")
 		res.Count("placeholders_seen", j.nPlaceholders)
 		res.Count("placeholders_supplied", j.nSupplied)
 		res.Count("placeholders_unsupplied", j.nUnsupplied)
@@ -429,12 +528,14 @@ func describe(res *kit.Result, c *Case, j *judge) {
 func TestC18(t *testing.T) {
 	kit.Main(t, kit.Spec[Case]{
 		ID: "C18", Level: "exploration",
-		Rule: "base document built through the API: 1-6 (thorough 1-9) body blocks = paragraphs whose text is drawn as tokens (literals incl. XML metacharacters/Unicode, lone and double braces, variable names as literal text, {{name}} placeholders) and then cut into up to 6 runs at drawn rune positions (half of the cuts inside a placeholder) with formats from a palette, plus page-break / inline-picture / PAGE-field runs at run boundaries and paragraph-property setter calls; tables (1-4 x 1-3, one horizontal or vertical merge, header row, row height, shaded cells, nested tables) with cell paragraphs of the same kind, in half of the tables one row in the documented row-loop shape ({{#each list}} in its first cell, {{/each}} in its last, item fields, cut into runs); paragraphs and cell paragraphs holding {{#image x}} (alone, or with non-blank text around / two placeholders); 0-3 headers/footers of distinct kinds with placeholders; section settings, document properties, a custom style, list items. Data: a drawn subset of the variable names (strings incl. XML metacharacters, braces, blanks, empty; ints; control characters only for names used in headers/footers), lists of 0-3 maps with a drawn subset of the fields, image data for a drawn subset of the image names. Rendered through LoadTemplateFromDocument+RenderTemplateToDocument, or saved and rendered through TemplateRenderer.LoadTemplateFromFile+RenderTemplate (optionally after adding Word-style package relationships to the file). non-trivial = some placeholder is cut across runs of different formats (in the case and as seen in the saved base) and the document has both a supplied and an unsupplied placeholder and a table or a header/footer; distinct = distinct (block skeleton: run counts, non-text run kinds, setter kinds, table shapes/loop row/merges; header/footer kinds; per-name value class vector; list lengths; entry point)",
+		Rule: "base document built through the API: 1-6 (thorough 1-9) body blocks = paragraphs whose text is drawn as tokens (literals incl. XML metacharacters/Unicode, lone and double braces, variable names as literal text, {{name}} placeholders) and then cut into up to 6 runs at drawn rune positions (half of the cuts inside a placeholder) with formats from a palette, plus page-break / inline-picture / PAGE-field runs at run boundaries and paragraph-property setter calls; tables (1-4 x 1-3, one horizontal or vertical merge, header row, row height, shaded cells, nested tables) with cell paragraphs of the same kind, in half of the tables one row in the documented row-loop shape ({{#each list}} in its first cell, {{/each}} in its last, sometimes a word before/after the marker; cells of 1-2 paragraphs holding item fields, each cut into up to 5 runs of different formats - cuts inside the markers and the fields - with page-break, picture and field runs and paragraph-property setters); paragraphs and cell paragraphs holding {{#image x}} (alone, or with non-blank text around / two placeholders); the white space between '#each' / '#image' / '#if' and the name is the one documented blank in about half of the draws, otherwise 1-3 blanks/tabs; literal tokens and whole table rows that only look like placeholders/markers ('{{ name }}', '{{#each rows }}', '{{ /each}}', '{{#Each rows}}', '{{#Image logo}}' ...); one-format paragraphs holding one conditional block {{#if c}}words[{{else}}words]{{/if}} with conditions set true/false/unset; 0-3 headers/footers of distinct kinds with placeholders; section settings, document properties, a custom style, list items. Data: a drawn subset of the variable names (strings incl. XML metacharacters, braces, blanks, empty; ints; control characters only for names used in headers/footers), lists of 0-3 maps with a drawn subset of the fields, image data for a drawn subset of the image names. Rendered through LoadTemplateFromDocument+RenderTemplateToDocument, or saved and rendered through TemplateRenderer.LoadTemplateFromFile+RenderTemplate (optionally after adding Word-style package relationships to the file). non-trivial = some placeholder is cut across runs of different formats (in the case and as seen in the saved base) and the document has both a supplied and an unsupplied placeholder and a table or a header/footer; distinct = distinct (block skeleton: run counts, non-text run kinds, setter kinds, table shapes/loop row/merges; header/footer kinds; per-name value class vector; list lengths; entry point)",
 		Gen:  genCase, Run: run, Findings: findings, Fixed: fixedCases,
 		Assumptions: []string{
 			"placeholder syntax as documented: {{name}} with name = [A-Za-z0-9_]+, {{#each list}} ... {{/each}} around the cells of one table row, {{#image name}}; placeholders are found by scanning the concatenated text of a paragraph from left to right (own scanner)",
 			"names of variables, header-only variables, item fields, lists and images come from pairwise disjoint pools that avoid the directive keywords; values never contain '{{' (re-scanning of values is C16's subject) nor '[IMAGE:'",
-			"body paragraphs hold no {{#each}}/{{#if}} (document-level loops and conditionals are C16's subject); loop-row cells hold item fields and brace-free literals only, one loop row per table, the list of a loop row is always supplied (0-3 items); merges never touch the loop row",
+			"body paragraphs hold no {{#each}} (document-level loops are C16's subject); loop-row cells hold item fields and brace-free literals only, one loop row per table, the list of a loop row is always supplied (0-3 items); merges never touch the loop row",
+			"the documentation writes a directive with exactly one blank between keyword and name. A loop marker / image placeholder with other white space there (1-3 blanks/tabs) may be read either way, but consistently: processed completely like the documented spelling (row expanded AND markers removed; picture inserted) or left completely alone as literal text (the table is then an ordinary table); the first reading without a failure is taken, a half-processed one fails under the clause it breaks. Any other variation ('{{ name }}', blank before '}}' or after '{{', other letter case, '{{/each }}') is literal text that must stay",
+			"the statement does not speak about conditional blocks: in a paragraph holding {{#if c}}..{{/if}} (one format, no non-text runs, no placeholder inside the block) the block may stay as it is, become its body or its else part, or vanish - whichever it is, nothing but the block's own markers/parts may change and the rest of the paragraph is judged as usual; headers/footers and loop rows hold no conditional blocks",
 			"a value takes the format of the run holding the first character of its placeholder; run boundaries themselves are not compared, only the format of every character",
 			"non-text runs are only placed at run boundaries that are not strictly inside a placeholder; a paragraph where one is inside is skipped (counted as ambiguous)",
 			"an image placeholder whose image has no data stands alone in its paragraph; the only demand is that one paragraph naming the image stays in its place (the statement is silent on more)",
@@ -447,7 +548,9 @@ func TestC18(t *testing.T) {
 			"loop:2+items": 0.08, "loop:0-items": 0.02, "doc:nested-table": 0.1, "doc:merged-table": 0.05, "doc:header-footer": 0.4, "doc:section-settings": 0.2, "doc:properties": 0.15,
 			"doc:custom-style": 0.15, "doc:list-item": 0.1, "doc:image-placeholder": 0.15, "doc:image-placeholder-in-cell": 0.03, "image:with-data": 0.15, "image:without-data": 0.05,
 			"nontext:br": 0.3, "nontext:pic": 0.1, "nontext:fld": 0.1, "value:xml-meta": 0.2, "value:control": 0.1, "value:braces": 0.2, "value:empty": 0.1, "value:int": 0.2,
-			"entry:0": 0.5, "entry:1": 0.1, "entry:2": 0.03, "ph:split-in-loop-row": 0.08, "pset:keepnext": 0.05, "pset:align": 0.2},
+			"entry:0": 0.5, "entry:1": 0.1, "entry:2": 0.03, "ph:split-in-loop-row": 0.08, "pset:keepnext": 0.05, "pset:align": 0.2,
+			"spelling:loop-marker-undocumented-blanks+items": 0.05, "spelling:image-undocumented-blanks": 0.1, "spelling:look-alike-literal": 0.15, "doc:conditional-block": 0.1,
+			"looprow:2+formats-in-a-paragraph": 0.1, "looprow:3+runs-in-a-paragraph": 0.1, "looprow:marker-split-across-runs": 0.1, "looprow:nontext-br": 0.04, "looprow:nontext-pic": 0.015, "looprow:nontext-fld": 0.015},
 	})
 }
 
@@ -473,6 +576,28 @@ func fixedCases() []Case {
 		Data: Data{Vars: map[string]Val{"name": {S: "ACME <&> Co"}, "city": {S: "Oslo"}, "doc_no": {S: "a\x00b\x0b"}},
 			Lists: map[string][]map[string]string{"rows": {{"item": "bolt", "price": "2"}, {"item": "nut <M4>", "price": "1"}, {"item": "washer"}}}},
 	})
+	// directive spellings: loop markers and image placeholders with other white space than the one documented blank
+	// (two blanks, a tab; cut into runs inside the blanks), a trailing word after {{/each}}, a row and literals that only
+	// look like directives, a conditional block with two blanks
+	for _, ws := range []string{"  ", "\t", " \t "} {
+		out = append(out, Case{
+			Blocks: []Block{
+				{P: &Para{Runs: []Run{txt("{{ name }} {{name }} {{#Each rows}} {{/each }} ", nil), txt("{{name}}", bold), txt(" {{#if"+ws+"vip}}yes{{else}}no{{/if}}.", nil)}}},
+				{T: &Table{Rows: 3, Cols: 2, LoopRow: 1, List: "rows", Cells: [][]Cell{
+					{cellp(txt("Item {{city}}", bold)), cellp(txt("Price", bold))},
+					{cellp(txt("{{#each"+ws[:1], bold), txt(ws[1:]+"rows}}", nil), txt("{{item}}", red)), cellp(txt("{{price}}", red), txt(" EUR", nil), txt("{{/each}}", bold), txt(".", nil))},
+					{cellp(txt("Sum {{name}}", nil)), cellp(txt("n/a", nil))}}}},
+				{P: &Para{Runs: []Run{txt("{{#image"+ws+"logo}}", nil)}}},
+				{T: &Table{Rows: 2, Cols: 2, LoopRow: -1, Cells: [][]Cell{
+					{cellp(txt("{{#each rows }}{{item}} {{name}}", nil)), cellp(txt("{{price}}{{ /each}}", nil))},
+					{cellp(txt("{{#image logo }}", nil)), cellp(txt("{{city}}", red))}}}},
+			},
+			Data: Data{Vars: map[string]Val{"name": {S: "ACME"}, "city": {S: "Oslo"}}, Conds: map[string]bool{"vip": true},
+				Imgs:  map[string]gen.Img{"logo": {Fmt: "png", W: 3, H: 2, Pat: 7, Name: "logo.png"}},
+				Lists: map[string][]map[string]string{"rows": {{"item": "bolt", "price": "2"}, {"item": "nut", "price": "1"}}}},
+			Entry: len(ws) % 2,
+		})
+	}
 	// every cut position of a paragraph with two supplied placeholders, in two and in three runs
 	text := []rune("Dear {{name}}, {{city}}!")
 	for p := 1; p < len(text); p++ {
